@@ -1063,6 +1063,7 @@ impl Object for AppearanceStreamEntry {
 impl ObjectWrite for AppearanceStreamEntry {
     fn to_primitive(&self, update: &mut impl Updater) -> Result<Primitive> {
         match self {
+            AppearanceStreamEntry::Dict(d) if d.is_empty() => Ok(Dictionary::new().into()),
             AppearanceStreamEntry::Dict(d) => d.to_primitive(update),
             AppearanceStreamEntry::Single(s) => s.to_primitive(update),
         }
